@@ -192,6 +192,7 @@ def check(pid, tier, seed):
            "evaluations": len(cases), "distinct_nontrivial": len(sigs),
            "rule": P.RULE, "samples": samples,
            "correspondence_cases_evaluated_in_coq": ncorr, "correspondence_disagreements": len(corr_fail),
+           "correspondence_cases_left_unevaluated_at_the_time_limit": TIMEOUTS.get("n", 0),
            "implementation_vs_specification_failures": len(violations),
            "known_findings_reproduced": sorted(known_hits),
            "input_distribution": hist, "error_outcomes": errs,
